@@ -514,7 +514,7 @@ func genEnv(rng *rand.Rand, prefix string, n int) []string {
 func genMgSpec(rng *rand.Rand, extends bool) mgSpec {
 	sp := mgSpec{Extends: extends}
 	nfiles := 2
-	if !extends && rng.Intn(4) == 0 {
+	if rng.Intn(4) == 0 {
 		nfiles = 3
 	}
 	names := []string{"ma", "mb", "mc", "md"}
@@ -814,7 +814,35 @@ func runMerge(c fw.Case) fw.Result {
 			}
 		}
 	}
-	if sp.Extends && len(r.Findings) == 0 {
+	if sp.Extends && len(sp.Files) == 3 && len(r.Findings) == 0 {
+		// chain: f2 extends f1 extends f0 must equal naming [f0, f1, f2]
+		// (absolute or unset-by-all working dirs only: see the working-dir rule)
+		rel01, _ := filepath.Rel(dir, files[0])
+		mid, _ := sim.WriteTemp(dir, "mid.yaml", sp.Files[1].yaml(rel01))
+		top, _ := sim.WriteTemp(dir, "top.yaml", sp.Files[2].yaml(filepath.Base(mid)))
+		ext, err := loadOnce([]string{top})
+		if err != nil {
+			r.Add("C15", "extends-load-error", "loading the three-level extends chain failed: %v", err)
+		} else {
+			for name, a := range prj.Processes {
+				b, ok := ext.Processes[name]
+				if !ok {
+					r.Add("C15", "extends-process-set", "process %s is missing when loaded through the extends chain", name)
+					continue
+				}
+				a.WorkingDir, b.WorkingDir = "", ""
+				a.OriginalConfig, b.OriginalConfig = "", ""
+				if canon(a) != canon(b) {
+					r.Add("C15", "extends-chain-differs", "%s differs between the extends chain f2->f1->f0 and naming the three files in order:\n  chain: %s\n  files: %s", name, canon(b), canon(a))
+				}
+			}
+			if canon(envMap(ext.Environment)) != canon(envMap(prj.Environment)) {
+				r.Add("C15", "extends-chain-differs", "global environment differs between the extends chain and naming the three files")
+			}
+			r.Count("extends_chains_checked", 1)
+		}
+	}
+	if sp.Extends && len(sp.Files) == 2 && len(r.Findings) == 0 {
 		// child with `extends` must give the same processes as naming both files,
 		// apart from the working-dir rule for the base's processes
 		rel, _ := filepath.Rel(dir, files[0])
